@@ -87,7 +87,7 @@ def main():
                 "thorough_cmd": "./check %s --tier thorough" % i,
                 "evidence_file": "/verif/evidence/%s.json" % i,
                 "replay_cmd_template": "./check %s --replay {path}" % i,
-                "engine": "bfs" if lvl == "model_checking" else "enum",
+                "engine": "bfs" if i in ("C14", "C15") else "enum",
                 "level_claimed": {"category": lvl, "text": text, "design_ref": "DESIGN.md section 4, %s" % i},
                 "level_note": (TB % i.lower()) + ("; " + extra if extra else ""),
                 "technique": tech,
@@ -108,7 +108,7 @@ def main():
         ],
         "checks": checks,
         "not_applicable": na,
-        "notes": "All checks: ./check <id> --tier quick|thorough. Known findings in known_findings.json. Seeded breaking changes under seeded/.",
+        "notes": "All checks: ./check <id> --tier quick|thorough (exit 0 held / 1 violation / 2 harness error). Genuine defects: known_findings.json (open ones print KNOWN-FINDING and do not affect the exit code; fixed ones suppress nothing). Demonstration patches: mutants/ (+RESULTS.tsv), independent seeded changes: seeded/. Replays: ./check <id> --replay <file>; replays/test_replays.py. DESIGN.md section 8 is the as-built record.",
     }
     json.dump(m, open(os.path.join(VERIF, "MANIFEST.json"), "w"), indent=1)
     import jsonschema
